@@ -87,6 +87,50 @@ fn c04() {
     println!("C04-1 `/adframe.$script,domain=~news.example` cancelled by `...domain=news.example,badfilter`: blocked={b} (expected true)");
 }
 
+fn c08() {
+    // F-C08-1: removeparam rules are lost on reload
+    let e = engine(&["*$removeparam=utm"], false);
+    let req = Request::new("http://x.com/?utm=1&a=2", "http://y.com", "xhr").unwrap();
+    let before = e.check_network_request(&req).rewritten_url;
+    let bytes = e.serialize_raw().unwrap();
+    let mut e2 = Engine::default();
+    e2.deserialize(&bytes).unwrap();
+    let after = e2.check_network_request(&req).rewritten_url;
+    println!("C08-1 removeparam before reload={:?} after reload={:?} (expected equal)", before, after);
+    // F-C08-2: PermissionMask of scriptlet injections is lost on reload
+    use adblock::resources::{PermissionMask, Resource, ResourceType, MimeType};
+    let mut fs = FilterSet::new(true);
+    fs.add_filters(&["x.com##+js(priv)"], ParseOptions { permissions: PermissionMask::from_bits(1), ..Default::default() });
+    let mut e = Engine::from_filter_set(fs, false);
+    let res = Resource {
+        name: "priv.js".into(), aliases: vec![], kind: ResourceType::Mime(MimeType::ApplicationJavascript),
+        content: base64_encode("console.log('priv')"), dependencies: vec![], permission: PermissionMask::from_bits(1),
+    };
+    e.use_resources([res.clone()]);
+    let before = e.url_cosmetic_resources("http://x.com/").injected_script;
+    let bytes = e.serialize_raw().unwrap();
+    let mut e2 = Engine::default();
+    e2.deserialize(&bytes).unwrap();
+    e2.use_resources([res]);
+    let after = e2.url_cosmetic_resources("http://x.com/").injected_script;
+    println!("C08-2 permissioned scriptlet injected before reload={} after reload={} (expected equal)", !before.is_empty(), !after.is_empty());
+}
+
+fn base64_encode(s: &str) -> String {
+    // minimal base64 (no padding handling beyond '=')
+    const T: &[u8] = b"ABCDEFGHIJKLMNOPQRSTUVWXYZabcdefghijklmnopqrstuvwxyz0123456789+/";
+    let b = s.as_bytes();
+    let mut out = String::new();
+    for c in b.chunks(3) {
+        let n = (c[0] as u32) << 16 | (*c.get(1).unwrap_or(&0) as u32) << 8 | *c.get(2).unwrap_or(&0) as u32;
+        out.push(T[(n >> 18) as usize & 63] as char);
+        out.push(T[(n >> 12) as usize & 63] as char);
+        out.push(if c.len() > 1 { T[(n >> 6) as usize & 63] as char } else { '=' });
+        out.push(if c.len() > 2 { T[n as usize & 63] as char } else { '=' });
+    }
+    out
+}
+
 fn c10_1() {
     let mut e = Engine::default();
     let r = std::panic::catch_unwind(std::panic::AssertUnwindSafe(|| {
@@ -114,6 +158,7 @@ fn main() {
     if want("c01") { c01(); }
     if want("c04") { c04(); }
     if want("c05") { c05(); }
+    if want("c08") { c08(); }
     if want("c06_1") { c06_1(); }
     if want("c06_2") { c06_2(); }
     if want("c07") { c07(); }
